@@ -9,6 +9,8 @@
 import Gedcom.Lemmas.DiffEqual
 import Gedcom.Lemmas.DiffSort
 import Gedcom.Lemmas.DiffPair
+import Gedcom.Lemmas.DiffGuard
+import Gedcom.Lemmas.StableSort
 namespace Gedcom.C08
 open Gedcom Diff
 
@@ -380,6 +382,58 @@ theorem isDeepEqual_sort (D : Diff) : D.sort.isDeepEqual = D.isDeepEqual := by
         exact this
       rw [hD] at this; cases this
 
+/-! ### Sort is the stable sort -/
+
+/-- **Uniqueness of the stable sort** (generic): if `lt` is a strict weak order on the elements of
+    `l`, every sorted and stable arrangement of `l` — given as a permutation `r` of the elements
+    tagged with their original positions — equals `sliceStable lt l`.  So Go's `sort.SliceStable`
+    (insertion-sorted blocks of 20 merged by `symMerge`, a stable sort) and the model's insertion
+    sort agree for any number of elements. -/
+theorem sliceStable_unique {α : Type} (lt : α → α → Bool) (l : List α) (h : swoB lt l = true)
+    (r : List (α × Nat)) (hperm : r.Perm l.zipIdx)
+    (hsorted : r.Pairwise (fun p q => lt q.1 p.1 = false))
+    (hstable : r.Pairwise (fun p q => lt p.1 q.1 = false → p.2 < q.2)) :
+    r.map (·.1) = sliceStable lt l :=
+  sliceStable_unique_idx lt (swoB_sound lt l h) r hperm hsorted hstable
+
+theorem flatKeys_eq : ∀ (cs : List Diff), Diff.flatKeys cs = (Diff.sortKeyed cs).map (·.1)
+  | [] => by rw [Diff.flatKeys, Diff.sortKeyed]; rfl
+  | c :: cs => by rw [Diff.flatKeys, Diff.sortKeyed, flatKeys_eq cs]; rfl
+
+/-- **`Sort` of an entry is the stable sort of its children by `isLessThan`**, whenever
+    `isLessThan` is a strict weak order on them (`Diff.sortExact` checks this for the lists of more
+    than 20 children, where Go no longer runs the plain insertion sort): any sorted, stable
+    arrangement `r` of the keyed children yields exactly the children of the sorted entry. -/
+theorem sort_kids_unique (L R : Option INode) (cs : List Diff)
+    (h : swoB lessKey (Diff.flatKeys cs) = true)
+    (r : List ((SortKey × Diff) × Nat)) (hperm : r.Perm (Diff.sortKeyed cs).zipIdx)
+    (hsorted : r.Pairwise (fun p q => lessKey q.1.1 p.1.1 = false))
+    (hstable : r.Pairwise (fun p q => lessKey p.1.1 q.1.1 = false → p.2 < q.2)) :
+    r.map (·.1.2) = ((Diff.mk L R cs).sort).kids := by
+  have hswo : SWOOn (fun a b : SortKey × Diff => lessKey a.1 b.1) (Diff.sortKeyed cs) := by
+    have h0 := swoB_sound lessKey _ h
+    rw [flatKeys_eq] at h0
+    have mem : ∀ a ∈ Diff.sortKeyed cs, a.1 ∈ (Diff.sortKeyed cs).map (·.1) :=
+      fun a ha => List.mem_map.mpr ⟨a, ha, rfl⟩
+    exact ⟨fun a ha => h0.1 _ (mem a ha),
+      fun a ha b hb c hc => h0.2.1 _ (mem a ha) _ (mem b hb) _ (mem c hc),
+      fun a ha b hb c hc => h0.2.2 _ (mem a ha) _ (mem b hb) _ (mem c hc)⟩
+  have := sliceStable_unique_idx (fun a b : SortKey × Diff => lessKey a.1 b.1) hswo r hperm hsorted hstable
+  rw [Diff.sort]
+  show _ = (sliceStable _ (Diff.sortKeyed cs)).map (·.2)
+  rw [← this, List.map_map]
+  rfl
+
+/-- **Where `isLessThan` is not a strict weak order.** Entries whose tags share a `sortValue` level
+    are compared by `Years()` when both are `Yearer`s (DATE, EVEN, RESI) and by value otherwise, so
+    mixing the two kinds on one level can cycle: DATE `1900` < PLAC `5 Main St` (values),
+    PLAC `5 Main St` < DATE `Abt. 1850` (values), DATE `Abt. 1850` < DATE `1900` (years).  On such
+    lists the result of `sort.SliceStable` depends on its algorithm; the model is Go's insertion
+    sort, exact up to 20 entries. -/
+theorem isLessThan_not_strict_weak :
+    swoB lessNode [.mk (lit "DATE") (lit "1900") [] [], .mk (lit "PLAC") (lit "5 Main St") [] [],
+      .mk (lit "DATE") (lit "Abt. 1850") [] []] = false := by decide
+
 /-! ### deep-equal inputs -/
 
 /-- The guard of `deepEqual_all_two_sided` (C07's transitivity guard, per level of the comparison):
@@ -444,6 +498,27 @@ theorem equivLevels_of_plain (l r : INode)
     simp only [Bool.and_eq_true, beq_iff_eq]
     rintro ⟨⟨h1, h2⟩, h3⟩ ⟨⟨k1, k2⟩, k3⟩
     exact ⟨⟨h1.trans k1, h2.trans k2⟩, h3.trans k3⟩
+
+/-- **The guard is decidable by the model**: when the executable check `equivLevelsB` (the driver
+    answers it for every generated case) says yes, the guard holds. -/
+theorem equivLevels_of_check (l r : INode) (h : equivLevelsB l r = true) : EquivLevels l r := by
+  have hg := guardB_sound iequals _ _ h
+  intro d a b c ha hb hc
+  have lift : ∀ x, (INode.At l (d + 1) x ∨ INode.At r (d + 1) x) → BelowLevel (l.kids ++ r.kids) d x := by
+    intro x hx
+    rcases hx with hx | hx
+    · obtain ⟨k, hk, hat⟩ := hx.succ
+      exact ⟨k, List.mem_append_left _ hk, hat⟩
+    · obtain ⟨k, hk, hat⟩ := hx.succ
+      exact ⟨k, List.mem_append_right _ hk, hat⟩
+  exact hg d a b c (lift a ha) (lift b hb) (lift c hc)
+
+/-- `deepEqual_all_two_sided_partial` with the executable guard: whenever the model answers
+    `deepEqual = true` and `equivLevelsB = true` for a pair, the diff is all-two-sided.  The harness
+    owes all-two-sidedness of the implementation exactly on these answers. -/
+theorem deepEqual_all_two_sided_checked (l r : INode) (hde : deepEqual l.erase r.erase = true)
+    (hc : equivLevelsB l r = true) : (compareNodes l r).isDeepEqual = true :=
+  deepEqual_all_two_sided_partial l r hde (equivLevels_of_check l r hc)
 
 /-- a tree with the RESI children {1900}, {1901}, {1900, 1901} and the copy with the children in the
     order 3, 1, 2 -/
